@@ -68,6 +68,10 @@ def build(spec):
     if kind == "genbench":
         st = np.random.get_state()
         try:
+            if spec.get("np_seed") is not None:
+                # unseeded creation: the scenario is drawn from the global
+                # generator, whose state is part of the op ("same draws")
+                np.random.seed(spec["np_seed"])
             scen = guarded_generate(nasim.make_benchmark_scenario,
                                     spec["name"], spec["seed"])
         finally:
@@ -245,7 +249,16 @@ def family_spec(rng, which=None):
     """Hand-shaped families for particular clauses."""
     which = which or rng.choice(["pivot_traffic", "internet_only", "star",
                                  "two_sensitive_one_subnet", "honeypot",
-                                 "deny_heavy"])
+                                 "deny_heavy", "balanced_tree",
+                                 "balanced_tree", "asymmetric"])
+    if which == "asymmetric":
+        doc = docgen.gen_doc(rng, shape=rng.choice(["random", "tree"]),
+                             max_subnets=4, asym=True, open_firewall=True,
+                             step_limit=None)
+        return {"kind": "yaml", "text": docgen.emit(doc, rng),
+                "family": which}
+    if which == "balanced_tree":
+        return balanced_tree_spec(rng)
     if which == "pivot_traffic":
         # pivot (has access) and traffic source differ: chain with closed
         # rules in one direction and per-host deny lists
@@ -288,3 +301,41 @@ def family_spec(rng, which=None):
     # a host that used to be sensitive may still carry its old value as an
     # ordinary host value: that is legal.
     return {"kind": "yaml", "text": docgen.emit(doc, rng), "family": which}
+
+
+def balanced_tree_spec(rng):
+    """Public root subnet with two equal branches of depth two and equal
+    subnet sizes: different episodes can discover different host sets of the
+    same size.  Everything is exploitable so that episodes make progress."""
+    k = rng.choice([1, 2])
+    doc = docgen.gen_doc(rng, shape="chain", max_subnets=1, step_limit=None)
+    srvs, procs, oss = doc["services"], doc["processes"], doc["os"]
+    n = 5
+    T = [[1 if i == j else 0 for j in range(n + 1)] for i in range(n + 1)]
+    for a, b in ((0, 1), (1, 2), (1, 3), (2, 4), (3, 5)):
+        T[a][b] = T[b][a] = 1
+    doc["subnets"] = [k] * n
+    doc["topology"] = T
+    hosts = {}
+    for s in range(1, n + 1):
+        for h in range(k):
+            hosts[docgen.A(s, h)] = {"os": oss[0], "services": list(srvs),
+                                     "processes": list(procs)}
+    doc["host_configurations"] = hosts
+    doc["sensitive_hosts"] = {docgen.A(4, 0): 100, docgen.A(5, 0): 100}
+    for e in doc["exploits"].values():
+        e["os"] = "none"
+        e["prob"] = rng.choice([1.0, 0.8])
+    if not doc["privilege_escalation"]:
+        doc["privilege_escalation"] = {"pe0": {"process": procs[0],
+                                               "os": "none", "prob": 1.0,
+                                               "cost": 1, "access": "root"}}
+    fw = {}
+    for i in range(n + 1):
+        for j in range(n + 1):
+            if i != j and T[i][j] == 1:
+                fw[docgen.A(i, j)] = list(srvs)
+    doc["firewall"] = fw
+    doc["step_limit"] = rng.choice([6, 8, 12])
+    return {"kind": "yaml", "text": docgen.emit(doc, rng),
+            "family": "balanced_tree"}
